@@ -285,6 +285,11 @@ impl ParContext {
 
 impl Fill for ParContext {
     fn fill_interleaved(&mut self, interleaved: &[i32]) -> Result<(), SourceError> {
+        if interleaved.is_empty() {
+            // An empty message is the stop signal of the hashing thread; an empty
+            // block adds nothing to the hash (`Context` ignores it as well).
+            return Ok(());
+        }
         let bps = self.bytes_per_sample;
         self.bytebuf.resize(interleaved.len() * bps, 0u8);
         i32s_to_le_bytes(interleaved, &mut self.bytebuf, bps);
@@ -298,6 +303,10 @@ impl Fill for ParContext {
             return Err(SourceError::by_reason(
                 super::error::SourceErrorReason::InvalidFormat,
             ));
+        }
+        if bytes.is_empty() {
+            // see `fill_interleaved`.
+            return Ok(());
         }
         self.bytebuf.clear();
         self.bytebuf.extend_from_slice(bytes);
